@@ -318,6 +318,15 @@ class FGen:
                     lo = rng.randint(0, 1)
                     hi = rng.choice([lo, lo + 1, lo + 3, 4])
                     k = ["num", rng.choice([0.25, 0.5, 1.5, -0.5])]
+                    if rng.random() < 0.35:
+                        # two loops and a recurrence that does not commute: the order of the nest is observable
+                        c2 = "j" if c == "i" else "i"
+                        term = ["+", ["var", c], ["*", ["num", 2], ["var", c2]]]
+                        rhs = rng.choice([["+", ["*", ["num", 0.5], ["var", w]], term], ["-", term, ["var", w]]])
+                        inner_hi = ["num", rng.choice([2, 3])] if rng.random() < 0.7 else ["+", ["var", c], ["num", 1]]
+                        ops.append(["assign", w, None, rhs,
+                                    [[c, ["num", lo], ["num", lo + rng.choice([2, 3])]], [c2, ["num", 0], inner_hi]], 0])
+                        continue
                     term = rng.choice([["*", k, ["var", c]], ["*", ["var", c], k], ["/", ["var", c], ["num", 4]]])
                     rhs = ["+", ["var", w], term] if rng.random() < 0.7 else term
                     ops.append(["assign", w, None, rhs, [[c, ["num", lo], ["num", hi]]], self.s(rhs)])
